@@ -285,18 +285,26 @@ def pool_owner(ctx, L, rule="R-POOL-OWNER"):
     """pool numbers are released only where an outbound session is deleted (never on inbound paths)"""
     P = ctx.prog
     n = 0
+    from .common import is_helper
     for fn in P.all_funcs():
-        if fn.cls is None or fn.cls.name != L.cls or fn.name in PUTS:
-            continue
-        sites = [s for s in ctx.cg.sites.get(fn.qual, []) if is_self_call(s.sym) and mname(s.sym) in PUTS]
-        if not sites:
-            continue
+        if fn.cls is None or fn.cls.name != L.cls or fn.name in PUTS or is_helper(fn):
+            continue   # helpers are inlined into the anchor functions that call them
         if fn is not L.job:
-            for s in sites:
-                n += 1
-                ctx.violated(rule, fn, "22 %s called in %s [%s]" % (mname(s.sym), fn.name, _branch_label(ctx, L, fn, s.node)),
-                             "an inbound path releases a number of the stack's own originator pool: a frame from a peer frees "
-                             "(or indexes beyond) outbound capacity", s.node)
+            seen_nodes = set()
+            try:
+                rs = runs(ctx, fn)
+            except AnalysisError:
+                rs = []
+            for r in rs:
+                for name in PUTS:
+                    for i, e in L.calls(r, name):
+                        if id(e.node) in seen_nodes:
+                            continue
+                        seen_nodes.add(id(e.node))
+                        n += 1
+                        ctx.violated(rule, fn, "22 %s called in %s [%s]" % (name, fn.name, _branch_label(ctx, L, fn, e.node)),
+                                     "an inbound path releases a number of the stack's own originator pool: a frame from a peer frees "
+                                     "(or indexes beyond) outbound capacity", e.node)
             continue
         # job thread: classify by scan
         for table in ("_rcv_buffer", "_multi_pg_snd_buffer", "_snd_buffer"):
